@@ -5,7 +5,7 @@
 From Coq Require Import ZArith List Bool.
 From V Require Import rcache.PyList rcache.RCacheModel rcache.RCacheSpec rcache.RQueryModel rcache.RQuerySpec
   rcache.RQueryThm rcache.RCacheThm rcache.RCacheQuery.
-From V Require rr.RRBase rr.RRNorm rcache.RReplace rcache.RReplaceThm.
+From V Require rr.RRBase rr.RRNorm rcache.RReplace rcache.RReplaceThm rcache.RRInitBase gen.RRInitGen rcache.RRInitGenThm.
 From V Require Import rcache.RGenBase gen.RQueryGen rcache.RQueryGenThm.
 Import ListNotations.
 Open Scope Z_scope.
@@ -141,6 +141,29 @@ Print Assumptions C12_gen_xafter.
 Theorem C12_gen_between : forall complete l a b inc, gen_between complete l a b inc = between complete l a b inc.
 Proof. exact gen_between_eq. Qed.
 Print Assumptions C12_gen_between.
+
+(* ---- replace() and the constructor it re-runs are the code: gen/RRInitGen.v is REGENERATED from /repo's
+   AST by harness/gen_rr_init.py on every run (rrule.__init__ executed symbolically statement by statement,
+   incl. every `self._original_rule[...] = ...`; replace accepted only as attributes + .update(_original_rule)
+   + .update(kwargs) + rrule(..)).  The generated constructor leaves exactly the rule of RRNorm.normalize and
+   the dictionary of RReplace.record, for ALL argument records (RRInitBase.args, erase) -- so
+   C12_replace_only_named is about the recording the translator reads from the source *)
+Theorem C12_gen_replace_record : forall a ru o,
+  RRInitGen.gen_init a = RRBase.Ok (ru, o) ->
+  RRNorm.normalize (RRInitBase.erase a) = RRBase.Ok ru /\ o = RReplace.record (RRInitBase.erase a).
+Proof. exact RRInitGenThm.gen_init_normalize. Qed.
+Print Assumptions C12_gen_replace_record.
+
+Theorem C12_gen_replace_raw : forall r u, RRInitGen.gen_replace_raw r u = RReplace.replace_raw r u.
+Proof. exact RRInitGenThm.gen_replace_raw_is_model. Qed.
+Print Assumptions C12_gen_replace_raw.
+
+Theorem C12_gen_replace_only_named : forall a u,
+  RReplaceThm.replace_guard (RRInitBase.erase a) u ->
+  RRNorm.normalize (RRInitGen.gen_replace_raw (RRInitBase.erase a) u) =
+  RRNorm.normalize (RReplace.apply_upd (RRInitBase.erase a) u).
+Proof. exact RRInitGenThm.gen_replace_only_named. Qed.
+Print Assumptions C12_gen_replace_only_named.
 
 (* the hypothesis `incr l` is satisfiable and decidable, and it is needed: *)
 Theorem C12_incr_nonvacuous : incr [1; 3; 7] /\ (forall l, incrb l = true -> incr l).
